@@ -27,6 +27,7 @@ type Env struct {
 	depth    int
 	cells    map[string]V // captured variables of a closure callee (pointers to their cells)
 	trigs    *[]string    // trig(t, body) terms collected for the innermost enclosing quantifier
+	oldFrom  *Env         // inside old(...): the environment old() was entered from (for non-parameter locals)
 }
 
 func (e *Env) child() *Env {
@@ -201,6 +202,13 @@ func (e *Env) evalIdent(name string) V {
 	if e.frame != nil {
 		if v, ok := x.lookupLocal(e.frame, name, e.point, e.cur); ok {
 			return v
+		}
+		// inside old(...): a local variable (not a parameter) is not part of the heap; it
+		// denotes its current value at the point the clause is evaluated
+		if e.oldFrom != nil {
+			if v, ok := x.lookupLocal(e.frame, name, e.oldFrom.point, e.oldFrom.cur); ok {
+				return v
+			}
 		}
 	}
 	if e.pkg != nil {
@@ -822,6 +830,9 @@ func (e *Env) evalCall(n *CCall) V {
 			if e.frame != nil {
 				oe.frame = e.frame
 				oe.point = nil
+				if e.point != nil && e.oldFrom == nil {
+					oe.oldFrom = e
+				}
 			}
 			return (&oe).eval(n.Args[0])
 		case "len":
@@ -850,6 +861,22 @@ func (e *Env) evalCall(n *CCall) V {
 		case "int", "math":
 			v := e.eval(n.Args[0])
 			return mathV(x.toMathInt(v))
+		case "mk":
+			// mk(T, f1, ..., fn): the struct value of type T with these field values (positional)
+			t, ok := e.tryType(n.Args[0])
+			if !ok {
+				e.fail("mk() needs a struct type as its first argument")
+			}
+			stT, ok := t.Underlying().(*types.Struct)
+			if !ok || stT.NumFields() != len(n.Args)-1 {
+				e.fail("mk(%s, ...) needs exactly one value per field", n.Args[0])
+			}
+			var fields []string
+			for i := 0; i < stT.NumFields(); i++ {
+				fv := e.coerce(e.eval(n.Args[i+1]), stT.Field(i).Type())
+				fields = append(fields, fv.S)
+			}
+			return V{T: t, S: x.s.mkStruct(t, fields)}
 		case "trig":
 			// trig(t, body): body, with t as the trigger of the innermost enclosing forall
 			if len(n.Args) != 2 {
